@@ -16,7 +16,7 @@ def digests(prop, first, count):
     if n <= 15:
         from .poolsim import generate_and_run
         for s in range(first, first + count):
-            sim = generate_and_run(s, prop, None)
+            sim = generate_and_run(s, prop, None, phased=(s % 3 == 2))      # every third seed: a phased scenario
             out.append(f"{prop} {s} {sim.digest()} {len(sim.viol)}")
     elif n <= 19:
         from . import ctl_engine
